@@ -54,6 +54,21 @@ def gen_ops(tier, rng):
         mode = rng.choice(["all", "all", "data", "someT", "someD"])
         req = sorted(rng.sample(range(d), min(d, 2))) if mode.startswith("some") else []
         add(fam, rng.choice(["-", "-", "nosimd", "ic-", "avx2-"]), d, p, size, mode, E, req, rng.choice(["nil", "empty", "cap"]), "seeded-" + fam)
+    # unit level: after prepare(), isNeeded(mip, bit) <=> the aligned 2^mip block of `bit` holds an erasure (every block, every level)
+    for _ in range(120 if tier == "quick" else 3000):
+        k = rng.choice([1, 1, 2, 3, 5, 20, 200])
+        pos8 = sorted(rng.sample(range(256), min(k, 256)))
+        ops.append((f"bfneed 8 {lst(pos8)} 1,2,3,4,5,6,7,8", {"cat": "bitfield8", "E": 1}))
+        hi = rng.choice([256, 4096, 8192, 65536, 65536])
+        pos16 = sorted(rng.sample(range(hi), min(k, hi)))
+        ops.append((f"bfneed 16 {lst(pos16)} 1,2,3,4,5,6,7,8,9,10,11,12,13,14,15,16", {"cat": "bitfield16", "E": 1}))
+    for b in range(16):      # one erasure in each 4096-block: exercises every bit of the coarsest levels
+        ops.append((f"bfneed 16 {b*4096 + rng.randrange(4096)} 10,11,12,13,14,15,16", {"cat": "bitfield16", "E": 1}))
+    # large GF16 transforms (n >= 8192) with few erasures: the coarsest mip levels decide which butterflies run
+    for (d, p) in ([(4096, 2048)] if tier == "quick" else [(4096, 2048), (8192, 4096), (6000, 2000)]):
+        for _ in range(3 if tier == "quick" else 12):
+            E = sorted(rng.sample(range(d), rng.randint(1, 3)))
+            add("leo16", "-", d, p, 64, rng.choice(["all", "data"]), E, [], "nil", "large-gf16")
     if tier == "thorough":
         for (d, p, k) in [(32768, 32768, 1), (32768, 32768, 8192), (1000, 1000, 250), (1000, 1000, 251), (65535, 1, 1), (1, 32768, 100)]:
             E = sorted(rng.sample(range(d + p), k))
